@@ -29,7 +29,7 @@ quick    : the SDK / limits / sampler / cross families completely, struct option
            structs with one field varied), a seeded sample of the exporter cases (every case that contains an
            ill-formed option, plus a seeded third of the rest), one seeded representative of every
            concrete-value table, 400 random scenarios.
-thorough : the full product incl. all 3^6 structs, six representatives of every concrete-value table,
+thorough : the full product incl. all 3^6 structs, four representatives of every concrete-value table,
            12000 scenarios.
 """
 import json
@@ -121,6 +121,30 @@ def pair_violations(ctx, direction, viols, trace_file):
                        "reference observed": v["ref"], "detail": rec.get("detail"), "reference detail": rec.get("refdetail")})
 
 
+def pairwise_new_class(act):
+    """exporter case that pairs a source of the classes `valid and equal to the default` / `set but empty`
+    with plain (absent / ordinary valid) other sources: always part of the quick sample, for every exporter
+    and setting (endpoint, URL path, headers, compression, timeout)"""
+    sigpath = {"otlptrace": "/v1/traces", "otlpmetri": "/v1/metrics", "otlploght": "/v1/logs", "otlploggr": "/v1/logs"}[act["comp"][:9]]
+
+    def new(i, s):
+        if s["k"] in ("vdef", "empty", "defurl", "defhost"):
+            return True
+        if act["fam"] == "endpoint":
+            return s["k"] in ("url", "path") and s["v"] == sigpath and (i > 0 or s["k"] == "path")
+        return act["setting"] == "compression" and s["k"] == "valid" and s["v"] == "none"
+
+    def plain(i, s):
+        if s["k"] in ("absent", "valid"):
+            return True
+        if act["fam"] == "endpoint":
+            return (i == 0 and (s["k"] == "host" or (s["k"] == "url" and s["v"] == "/o"))) or \
+                   (i > 0 and s["k"] == "url" and s["v"] in ("/s", "/g"))
+        return False
+    srcs = list(enumerate(act["srcs"]))
+    return any(new(i, x) for i, x in srcs) and all(new(i, x) or plain(i, x) for i, x in srcs)
+
+
 def sample_edges(ctx, edges_file, out_file):
     """quick tier: every SDK / limits / sampler / struct / cross case, every exporter case whose OPTION
     source is ill-formed, and a seeded third of the remaining exporter cases."""
@@ -134,7 +158,10 @@ def sample_edges(ctx, edges_file, out_file):
             if act["comp"] not in ("sdk", "bsp", "blrp"):
                 opt = act["srcs"][0]["k"]
                 illformed_opt = opt in ("badurl", "badenum", "unknown", "neg", "zero")
-                keep = illformed_opt or rnd.random() < 1.0 / 3
+                keep = illformed_opt or pairwise_new_class(act) or rnd.random() < 1.0 / 3
+            elif act["setting"].endswith(".delay"):
+                # schedule delays are observed in real time (about 1 s per case): a seeded half in the quick tier
+                keep = rnd.random() < 0.5
             if keep:
                 o.write(line)
                 kept += 1
@@ -171,7 +198,7 @@ def run(ctx):
 
     # ---- spec -> code
     if thorough:
-        reps = list(range(6))
+        reps = list(range(4))
     else:
         reps = [ctx.seed % 8]
         sampled = os.path.join(ctx.work, "edges-sampled.ndjson")
